@@ -3,7 +3,30 @@
    All theorems quantify over every well nested main flow o (bal 0 o), every answer list a and every schedule
    (reach o a s: any list of decisions "step / signal d arrives", see Proofs.v).                                        *)
 Require Import V.Lib.Base V.C18.Model V.C18.Proofs V.C18.ProofsTok V.C18.ProofsThm V.C18.ProofsRun.
+Require V.Gen.Consts_C18.
 Local Open Scope Z_scope.
+
+(* ---- 0. the model is written for the code as the translator (tools/consts/C18.py) finds it in src/application.cpp ---- *)
+Example c18_code_shape :
+  Consts_C18.take_atomic = true /\ Consts_C18.deliver_at = 0 /\ Consts_C18.release_at = 1 /\
+  Consts_C18.yields_process = [1; 2; 4; 5; 6] /\ Consts_C18.yields_unblock = [9].
+Proof. repeat split; reflexivity. Qed.
+
+Theorem c18_model_uses_code_constants : forall at_ s,
+  (forall f rest, stack s = f :: rest -> h_pc f = HInc ->
+     (exists f', stack (step at_ 0 s) = f' :: rest /\ h_r f' = blocked s /\
+                 (h_pc f' = HCbEnter <-> blocked s = Consts_C18.deliver_at) /\ (h_pc f' = HCbEnter \/ h_pc f' = HTest))) /\
+  (forall dl o, stack s = [] -> mpc_ s = MOp -> ops s = Unblock dl :: o ->
+     (mpc_ (step at_ 0 s) = MTake dl <-> blocked s = Consts_C18.release_at) /\
+     (mpc_ (step at_ 0 s) = MTake dl \/ mpc_ (step at_ 0 s) = MOp)).
+Proof.
+  intros at_ s. split.
+  - intros f rest Hs Hpc. unfold step. simpl. rewrite Hs. unfold hstep. rewrite Hpc. eexists. split; [reflexivity|].
+    simpl. unfold Consts_C18.deliver_at. destruct (Z.eqb_spec (blocked s) 0); repeat split; auto; try congruence; intro; discriminate.
+  - intros dl o Hs Hm Ho. unfold step. simpl. rewrite Hs. unfold mstep. rewrite Hm, Ho. simpl.
+    unfold Consts_C18.release_at. destruct (Z.eqb_spec (blocked s) 1); repeat split; auto; try congruence; intro; discriminate.
+Qed.
+Print Assumptions c18_model_uses_code_constants.
 
 (* ---- 1. never a callback while blocked or while another callback is active ---- *)
 (* Whenever an activation f is about to enter / is inside the callback (anywhere in the stack of nested handlers):
